@@ -116,6 +116,20 @@ Theorem C03_every_locked_output_has_one_live_owner : forall ops, forallb std_op 
 Proof. exact locked_is_held. Qed.
 Print Assumptions C03_every_locked_output_has_one_live_owner.
 
+(** "Repeating a protocol step with the same slate never adds a second log entry", at history
+    level: in every state reachable by standard-flow operations — however often and in whatever
+    order receives, reservations, finalizations, cancels and refreshes (incl. reorganisations)
+    of the same slates are repeated — a slate has at most one live sent entry and at most one
+    live received entry (TxReceived or TxReverted) in an account. *)
+Theorem C03_one_live_entry_per_slate : forall ops, forallb std_op ops = true ->
+  forall a b s, In a (w_log (run empty_wallet ops)) -> In b (w_log (run empty_wallet ops)) ->
+  t_slate a = Some s -> t_slate b = Some s -> t_parent a = t_parent b ->
+  ((t_type a = TSent /\ t_type b = TSent)
+   \/ ((t_type a = TReceived \/ t_type a = TReverted) /\ (t_type b = TReceived \/ t_type b = TReverted))) ->
+  a = b.
+Proof. exact one_live_entry_per_slate. Qed.
+Print Assumptions C03_one_live_entry_per_slate.
+
 (** the invariant is preserved by every single standard-flow step from ANY state satisfying it
     (not only from the empty wallet) *)
 Theorem C03_invariant_step : forall w o, std_op o = true -> Inv w -> Inv (fst (step w o)).
@@ -162,3 +176,16 @@ Example C03_history_with_held_output :
   /\ exists o, In o (w_outs (run empty_wallet ops)) /\ r_status o = Locked /\ r_root o = 1
                /\ r_tx o = Some 1.
 Proof. vm_compute. split; [reflexivity|]. eexists. split; [right; right; left; reflexivity|]. repeat split. Qed.
+
+(** non-vacuity: slate 5 delivered three times and slate 6 reserved twice; one live entry each *)
+Example C03_replays_add_nothing :
+  let pres := [((0, 0), None, 1)] in
+  let p := mkParams 1000000000 false 6 1 500 1 false 0 in
+  let ops := [OpCoinbase 0 1 None; OpRefresh 0 true 6 pres []; OpReceive 5 77 0 None true;
+              OpReceive 5 77 0 None true; OpInitSend 6 None p false; OpLock 6 0 6 true; OpLock 6 0 6 true;
+              OpReceive 5 78 0 None true] in
+  forallb std_op ops = true
+  /\ map (fun t => (t_slate t, t_type t)) (filter (fun t => match t_slate t with Some _ => true | None => false end)
+                                                 (w_log (run empty_wallet ops)))
+     = [(Some 5, TReceived); (Some 6, TSent)].
+Proof. vm_compute. split; reflexivity. Qed.
